@@ -9,6 +9,6 @@ open UtilModel
 def main (args : List String) : IO UInt32 :=
   driverMain [
     mkEntryH "routine" Routine.model Routine.Obs.parse
-      [MonEntry.ofMonitor "C04x" Routine.monC04x, MonEntry.ofMonitor "C04" Routine.monC04,
+      [MonEntry.ofMonitor "C04" Routine.monC04,
        MonEntry.ofMonitor "C05" Routine.monC05, MonEntry.ofMonitor "C14h" Routine.monC14h, MonEntry.ofMonitor "C14" Routine.monC14] (cap := 20000)
   ] args
